@@ -183,7 +183,7 @@ std::string decode_text(std::string const &enc)
 {
   std::string r;
   for (char c : enc)
-    r.push_back(c == 'N' ? '\n' : c == 'S' ? ' ' : c == 'T' ? '\t' : c == '_' ? '\0' : 'a');
+    r.push_back(c == 'N' ? '\n' : c == 'S' ? ' ' : c == 'T' ? '\t' : c == 'R' ? '\r' : c == 'X' ? '\xe9' : c == 'Z' ? '\0' : c == '_' ? '\0' : 'a');
   if (enc == "_")
     r.clear();
   return r;
@@ -429,7 +429,7 @@ struct World
       auto const l = loc(i);
       std::string const prefix = "F:Line " + std::to_string(l.first) + ":" + std::to_string(l.second) + ": Expected ";
       std::string suffix = ", got ";
-      suffix.push_back(static_cast<char>(got));
+      suffix.push_back(static_cast<unsigned long>(got) < 128 ? static_cast<char>(got) : '?');
       SIM_CHECK(res.compare(0, prefix.size(), prefix) == 0 && res.size() >= suffix.size() && res.compare(res.size() - suffix.size(), suffix.size(), suffix) == 0,
                 "error-location", n + " failed at offset " + std::to_string(i - 1) + "; message '" + res + "' does not carry location " + std::to_string(l.first) + ":" + std::to_string(l.second) + " (immediately after the offending character)");
       ctx.probe(got == Ch('\n') ? "error_after_newline" : "error_location_checked");
@@ -512,7 +512,12 @@ struct World
   void run(sim::Plan const &plan)
   {
     std::string const dec = decode_text(plan.cfg.gets("text", "_"));
-    string full(dec.begin(), dec.end());
+    string full;
+    for (char c : dec)
+    {
+      unsigned char const u = static_cast<unsigned char>(c);
+      full.push_back(sizeof(Ch) > 1 && u == 0xE9 ? static_cast<Ch>(0x20AC) : static_cast<Ch>(c));
+    }
     long const trunc = plan.cfg.get("trunc", -1);
     text = trunc >= 0 && static_cast<std::size_t>(trunc) < full.size() ? full.substr(0, static_cast<std::size_t>(trunc)) : full;
     if (text.size() != full.size())
@@ -597,7 +602,11 @@ void generate(sim::Rng &rng, sim::Plan &p, bool thorough)
   for (unsigned k = 0; k < len; ++k)
   {
     unsigned const r = static_cast<unsigned>(rng.below(6 + nl_weight));
-    text.push_back(r < 3 ? 'a' : r < 4 ? 'S' : r < 5 ? 'T' : 'N');
+    // rarely: carriage return, a character >= 0x80 (sign extension), NUL
+    if (backend != 2 && rng.chance(1, 25))
+      text.push_back("RXZ"[rng.below(3)]);
+    else
+      text.push_back(r < 3 ? 'a' : r < 4 ? 'S' : r < 5 ? 'T' : 'N');
   }
   p.cfg.sets("text", text.empty() ? "_" : text);
   bool const faulty = backend == 0 && rng.chance(1, 2);
